@@ -8,7 +8,9 @@ package c20
 // it, so "lookup finds exactly the view's items" and "diffs applied in order" are decidable.
 //   k=0  A.s0 := v, A.nonce := n                                   (A exists in every canonical base)
 //   k=1  declare class S(s,i); deploy D(s,i) with it; D.s0 := ..; A.s0 := v' (same key as k=0); A.s1 := w (0 for some)
-//   k=2  D.s1 := 6; D.nonce := 1; A.class replaced by S(s,i); 0x2[7] := ..   (touches the contract deployed by k=1)
+//   k=2  D.s1 := 6; D.nonce := 1; D.class replaced by C0; A.class replaced by S(s,i); 0x2[7] := ..
+//        (touches the contract deployed by k=1: the same address is then in the deployed AND the replaced / nonce /
+//        storage sections of one block's squashed diff; the systematic version of this is harness C, ordered_test.go)
 //   k>=3 A.s0 := v''; D.s0 := ..
 // k=2 is only reachable after k=1 in the same block (counts grow 0,1,2,...), and nothing refers to another
 // pre-confirmed block, so every view composition is protocol-valid on top of every canonical base.
@@ -92,6 +94,8 @@ func txEffect(s uint64, i, k int) *core.StateDiff {
 		st(D, chain.Slot1, 6)
 		d.Nonces[D] = chain.F(1)
 		d.ReplacedClasses[A] = &ch
+		_, c0 := chain.Cairo0(0) // declared by canonical block 0
+		d.ReplacedClasses[D] = &c0
 		st(chain.Sys2, chain.FV(7), val(s, i, 2))
 	default:
 		st(A, chain.Slot0, val(s, i, k))
@@ -188,7 +192,11 @@ func wireDiff(d *core.StateDiff) string {
 }
 
 func wireTx(s uint64, i, k int) (tx, rc, sd string) {
-	h := txHash(s, i, k)
+	return wireTxOf(txHash(s, i, k), s, k, txEffect(s, i, k))
+}
+
+// wireTxOf: feeder JSON of one transaction (hash h, position k of slot s) whose state diff is eff.
+func wireTxOf(h felt.Felt, s uint64, k int, eff *core.StateDiff) (tx, rc, sd string) {
 	tx = fmt.Sprintf(`{"transaction_hash":"%s","version":"0x1","type":"INVOKE_FUNCTION","sender_address":"0xa11ce","calldata":["0x1","0x%x"],"signature":["0x51"],"max_fee":"0x77","nonce":"0x%x"}`,
 		h.String(), k, s*8+uint64(k))
 	status, revert := "SUCCEEDED", ""
@@ -199,7 +207,7 @@ func wireTx(s uint64, i, k int) (tx, rc, sd string) {
 		`"execution_resources":{"n_steps":%d,"builtin_instance_counter":{"pedersen_builtin":1},"n_memory_holes":0,"data_availability":{"l1_gas":1,"l1_data_gas":2},"total_gas_consumed":{"l1_gas":1,"l1_data_gas":2,"l2_gas":3}},`+
 		`"l2_to_l1_messages":[],"transaction_index":%d}`,
 		h.String(), 0xfee+k, 0x200+k, s, status, revert, 100+k, k)
-	sd = wireDiff(txEffect(s, i, k))
+	sd = wireDiff(eff)
 	return
 }
 
@@ -232,21 +240,29 @@ func txList(s uint64, i, from, to int) (txs, rcs, sds string) {
 func fullJSON(s uint64, i, c int) []byte {
 	return memo(fmt.Sprintf("F/%d/%d/%d", s, i, c), func() []byte {
 		txs, rcs, sds := txList(s, i, 0, c)
-		return []byte(fmt.Sprintf(`{"changed":true,"block_number":%d,"block_identifier":"%s","transactions":[%s],"transaction_receipts":[%s],"transaction_state_diffs":[%s],`+
-			`"status":"PRE_CONFIRMED","timestamp":%d,"starknet_version":"%s","sequencer_address":"0x5e9",`+
-			`"l1_gas_price":{"price_in_wei":"0x6a5","price_in_fri":"0x6a6"},"l2_gas_price":{"price_in_wei":"0x2a1","price_in_fri":"0x2a2"},`+
-			`"l1_da_mode":"BLOB","l1_data_gas_price":{"price_in_wei":"0xda1","price_in_fri":"0xda2"}}`,
-			s, idString(s, i), txs, rcs, sds, 5000+s*10+uint64(i), pcVersion))
+		return fullJSONOf(s, idString(s, i), 5000+s*10+uint64(i), txs, rcs, sds)
 	})
+}
+
+func fullJSONOf(s uint64, id string, ts uint64, txs, rcs, sds string) []byte {
+	return []byte(fmt.Sprintf(`{"changed":true,"block_number":%d,"block_identifier":"%s","transactions":[%s],"transaction_receipts":[%s],"transaction_state_diffs":[%s],`+
+		`"status":"PRE_CONFIRMED","timestamp":%d,"starknet_version":"%s","sequencer_address":"0x5e9",`+
+		`"l1_gas_price":{"price_in_wei":"0x6a5","price_in_fri":"0x6a6"},"l2_gas_price":{"price_in_wei":"0x2a1","price_in_fri":"0x2a2"},`+
+		`"l1_da_mode":"BLOB","l1_data_gas_price":{"price_in_wei":"0xda1","price_in_fri":"0xda2"}}`,
+		s, id, txs, rcs, sds, ts, pcVersion))
 }
 
 // deltaJSON: transactions from..to-1 appended under identifier i.
 func deltaJSON(s uint64, i, from, to int) []byte {
 	return memo(fmt.Sprintf("D/%d/%d/%d/%d", s, i, from, to), func() []byte {
 		txs, rcs, sds := txList(s, i, from, to)
-		return []byte(fmt.Sprintf(`{"changed":true,"block_number":%d,"block_identifier":"%s","transactions":[%s],"transaction_receipts":[%s],"transaction_state_diffs":[%s]}`,
-			s, idString(s, i), txs, rcs, sds))
+		return deltaJSONOf(s, idString(s, i), txs, rcs, sds)
 	})
+}
+
+func deltaJSONOf(s uint64, id, txs, rcs, sds string) []byte {
+	return []byte(fmt.Sprintf(`{"changed":true,"block_number":%d,"block_identifier":"%s","transactions":[%s],"transaction_receipts":[%s],"transaction_state_diffs":[%s]}`,
+		s, id, txs, rcs, sds))
 }
 
 var noChangeJSON = []byte(`{"changed":false}`)
